@@ -825,10 +825,19 @@ func (s *c20State) opOpen() {
 	}
 }
 
-// the engine uses configuration c: its WAL directory is the one holding the live log
+// the engine uses configuration c: its WAL directory is the one holding the live log; when the
+// read-only view EngineFacade.VerifConfig() exists (hook requested, tag verif) the configuration
+// the engine holds is compared with c field by field
 func (s *c20State) checkUses(c *config.Config, walBefore []string) {
 	if c == nil {
 		return
+	}
+	if vc, ok := interface{}(s.eng).(interface{ VerifConfig() *config.Config }); ok && s.eng != nil {
+		if used := vc.VerifConfig(); used == nil {
+			s.fail("", "the engine holds no configuration")
+		} else if d := c20Diff(c, used); d != "" {
+			s.fail("", "the engine was opened with a configuration that differs from the stored one in field "+d)
+		}
 	}
 	want := string(s.canon([]byte(filepath.Clean(c.WALDir))))
 	found := false
